@@ -59,23 +59,23 @@ theorem dealloc_marks_all_dropped (c : Cfg) (w : World) (N : List Id) (hc : c.we
     ∀ x ∈ N, ((startDealloc c w N).heap x).dropped = true := by
   unfold startDealloc
   simp only [hc, if_true]
-  suffices h : ∀ (N : List Id) (h0 : Heap) (x : Id), (x ∈ N ∨ (h0 x).dropped = true) →
-      ((N.foldl (fun h x => h.set x { h x with dropped := true }) h0) x).dropped = true by
+  suffices h : ∀ (N : List Id) (w0 : World) (x : Id), (x ∈ N ∨ (w0.heap x).dropped = true) →
+      ((w0.updAll N fun o => { o with dropped := true }).heap x).dropped = true by
     intro x hx; exact h N _ x (Or.inl hx)
   intro N
   induction N with
-  | nil => intro h0 x hx; rcases hx with hx | hx; cases hx; simpa using hx
+  | nil => intro w0 x hx; rcases hx with hx | hx; cases hx; simpa [updAll] using hx
   | cons y r ih =>
-    intro h0 x hx
-    simp only [List.foldl_cons]
+    intro w0 x hx
+    simp only [updAll, List.foldl_cons]
     apply ih
     by_cases hxy : x = y
-    · right; subst hxy; simp
+    · right; subst hxy; simp [upd]
     · rcases hx with hx | hx
       · left; rcases List.mem_cons.1 hx with h | h
         · exact absurd h hxy
         · exact h
-      · right; simp [Heap.set, hxy, hx]
+      · right; simp [upd, Heap.set, hxy, hx]
 
 /-- The reference-count path does the same for the single object it destroys. -/
 theorem destroyLast_marks_dropped (c : Cfg) (w : World) (x : Id) (hc : c.weak = true) :
